@@ -226,7 +226,7 @@ func (e *kvElection) Start(ctx context.Context) error {
 		if err := e.attemptAcquire(); err != nil {
 			e.recordAcquireAttempt("failed")
 			e.recordFailure(classifyErrorType(err))
-			e.becomeFollower()
+			e.becomeFollowerUnlessLeader()
 		}
 	}()
 
@@ -259,6 +259,13 @@ func (e *kvElection) attemptAcquireWithRetry(ctx context.Context) {
 		default:
 		}
 
+		// Several rounds can be alive at once (watch event, periodic check,
+		// end-of-initial-data marker). Once one of them has won there is
+		// nothing left to acquire.
+		if e.IsLeader() {
+			return
+		}
+
 		err := e.attemptAcquire()
 		if err == nil {
 			return
@@ -276,7 +283,9 @@ func (e *kvElection) attemptAcquireWithRetry(ctx context.Context) {
 					zap.Error(err),
 				)...,
 			)
-			e.becomeFollower()
+			// A round that lost must never demote: another round of this
+			// instance may have won in the meantime.
+			e.becomeFollowerUnlessLeader()
 			return
 		}
 
@@ -493,6 +502,22 @@ func (e *kvElection) attemptPriorityTakeover(payloadBytes []byte) error {
 func (e *kvElection) becomeFollower() bool {
 	e.mu.Lock()
 	defer e.mu.Unlock()
+	return e.becomeFollowerLocked()
+}
+
+// becomeFollowerUnlessLeader is used by acquisition attempts that failed: it
+// puts a candidate into FOLLOWER (starting the watcher) but leaves an instance
+// that leads alone.
+func (e *kvElection) becomeFollowerUnlessLeader() {
+	e.mu.Lock()
+	defer e.mu.Unlock()
+	if e.isLeader.Load() {
+		return
+	}
+	e.becomeFollowerLocked()
+}
+
+func (e *kvElection) becomeFollowerLocked() bool {
 
 	// A stopped election stays stopped: goroutines that were still running
 	// when Stop/StopWithContext returned must not move it back to FOLLOWER
